@@ -74,7 +74,8 @@ CHECKS.update({
             "honoured, image of a valid internal value valid and converting back where injective, valid physical "
             "values convert without error, monotone continuous piecewise-linear methods can always encode. Type pairs, "
             "interval types and presence of optional parts enumerated (E); number of scales / table points / "
-            "polynomial degree bounded (B). SCALE-RAT-FUNC and COMPU-CODE are not under contract.",
+            "polynomial degree bounded (B). SCALE-RAT-FUNC: internal-to-physical direction over two scales (B); parsing of "
+            "number texts and of scales from XML (E). COMPU-CODE is not under contract.",
             "pre/postconditions of the compu-method functions against exact real-arithmetic specifications "
             "(spec/compu.py), float treated as real (A-float); z3 nonlinear real arithmetic"),
     "C10": ("contracts on the reference machinery: OdxLinkDatabase.resolve/resolve_lenient (object of the innermost "
